@@ -34,6 +34,9 @@ DiluteThm.vos DiluteThm.vok DiluteThm.required_vos: DiluteThm.v Base.vos Units.v
 Solve.vo Solve.glob Solve.v.beautified Solve.required_vo: Solve.v Base.vo Units.vo Contents.vo Container.vo Dilute.vo
 Solve.vio: Solve.v Base.vio Units.vio Contents.vio Container.vio Dilute.vio
 Solve.vos Solve.vok Solve.required_vos: Solve.v Base.vos Units.vos Contents.vos Container.vos Dilute.vos
+SolveThm.vo SolveThm.glob SolveThm.v.beautified SolveThm.required_vo: SolveThm.v Base.vo Units.vo UnitsThm.vo Contents.vo Container.vo ContainerThm.vo ContainerThm2.vo Dilute.vo Solve.vo
+SolveThm.vio: SolveThm.v Base.vio Units.vio UnitsThm.vio Contents.vio Container.vio ContainerThm.vio ContainerThm2.vio Dilute.vio Solve.vio
+SolveThm.vos SolveThm.vok SolveThm.required_vos: SolveThm.v Base.vos Units.vos UnitsThm.vos Contents.vos Container.vos ContainerThm.vos ContainerThm2.vos Dilute.vos Solve.vos
 Plate.vo Plate.glob Plate.v.beautified Plate.required_vo: Plate.v Base.vo Units.vo Contents.vo Container.vo
 Plate.vio: Plate.v Base.vio Units.vio Contents.vio Container.vio
 Plate.vos Plate.vok Plate.required_vos: Plate.v Base.vos Units.vos Contents.vos Container.vos
@@ -97,9 +100,9 @@ Props/C02.vos Props/C02.vok Props/C02.required_vos: Props/C02.v Base.vos Units.v
 Props/C03.vo Props/C03.glob Props/C03.v.beautified Props/C03.required_vo: Props/C03.v Base.vo Units.vo Contents.vo Container.vo ContainerThm.vo ContainerThm2.vo Dilute.vo Solve.vo Plate.vo PlateThm.vo Prog.vo HistoryThm.vo
 Props/C03.vio: Props/C03.v Base.vio Units.vio Contents.vio Container.vio ContainerThm.vio ContainerThm2.vio Dilute.vio Solve.vio Plate.vio PlateThm.vio Prog.vio HistoryThm.vio
 Props/C03.vos Props/C03.vok Props/C03.required_vos: Props/C03.v Base.vos Units.vos Contents.vos Container.vos ContainerThm.vos ContainerThm2.vos Dilute.vos Solve.vos Plate.vos PlateThm.vos Prog.vos HistoryThm.vos
-Props/C05.vo Props/C05.glob Props/C05.v.beautified Props/C05.required_vo: Props/C05.v Base.vo Solve.vo
-Props/C05.vio: Props/C05.v Base.vio Solve.vio
-Props/C05.vos Props/C05.vok Props/C05.required_vos: Props/C05.v Base.vos Solve.vos
+Props/C05.vo Props/C05.glob Props/C05.v.beautified Props/C05.required_vo: Props/C05.v Base.vo Units.vo UnitsThm.vo Contents.vo Container.vo ContainerThm.vo ContainerThm2.vo Dilute.vo Solve.vo SolveThm.vo HistoryThm.vo
+Props/C05.vio: Props/C05.v Base.vio Units.vio UnitsThm.vio Contents.vio Container.vio ContainerThm.vio ContainerThm2.vio Dilute.vio Solve.vio SolveThm.vio HistoryThm.vio
+Props/C05.vos Props/C05.vok Props/C05.required_vos: Props/C05.v Base.vos Units.vos UnitsThm.vos Contents.vos Container.vos ContainerThm.vos ContainerThm2.vos Dilute.vos Solve.vos SolveThm.vos HistoryThm.vos
 Props/C07.vo Props/C07.glob Props/C07.v.beautified Props/C07.required_vo: Props/C07.v Base.vo Units.vo Contents.vo Container.vo ContainerThm.vo ContainerThm2.vo Plate.vo PlateThm.vo
 Props/C07.vio: Props/C07.v Base.vio Units.vio Contents.vio Container.vio ContainerThm.vio ContainerThm2.vio Plate.vio PlateThm.vio
 Props/C07.vos Props/C07.vok Props/C07.required_vos: Props/C07.v Base.vos Units.vos Contents.vos Container.vos ContainerThm.vos ContainerThm2.vos Plate.vos PlateThm.vos
